@@ -465,7 +465,7 @@ Section WithEx.
     - (* CPipe *)
       destruct (ex (sup || bang) c s) as [r1 s1] eqn:E. pose proof (Hex _ _ _ _ _ E) as H1.
       destruct r1 as [f code0 | | |]; try (inversion H; subst; exact H1).
-      set (code := if bang then if code0 =? 0 then 1 else 0 else code0) in *.
+      set (code := if bang && flow_eqb f FNormal then if code0 =? 0 then 1 else 0 else code0) in *.
       set (s2 := set_status code s1) in *.
       assert (H12 : Inv s (ROk f code0) s2) by exact H1.
       destruct (if negb (code =? 0) && negb (sup || bang)
